@@ -47,6 +47,7 @@ def registers(ctx, P):
     from rules import c04
     _ensure(ctx, P + "/regs-source", lambda n: c04.rule_regs_source(ctx, R=n))
     _ensure(ctx, P + "/ptrace-requests", lambda n: c04.rule_ptrace_requests(ctx, R=n))
+    _ensure(ctx, P + "/fresh-context", lambda n: c04.rule_fresh_context(ctx, R=n))
 
 
 def image_builder(ctx, P):
@@ -66,3 +67,15 @@ def stack_lookup(ctx, P):
     _ensure(ctx, P + "/stack-plausible", lambda n: c06.rule_plausible_stack(ctx, R=n))
     _ensure(ctx, P + "/stack-lookup", lambda n: c06.rule_find_mapping(ctx, R=n))
     _ensure(ctx, P + "/stack-extent", lambda n: c06.rule_page_start(ctx, R=n))
+
+
+def module_ident(ctx, P):
+    """what identifies a module is read out of the loaded image the way the loader laid it out: the dynamic section's entries are
+    taken by tag and the string table address is made module-relative, segments are found at p_vaddr in process memory and at
+    p_offset in a file (read_segment, the note scan and the section lookup agree), the name is cut out of the string table's own
+    window, and headers are parsed in the image's class and byte order"""
+    from rules import c14
+    _ensure(ctx, P + "/dynamic-entries", lambda n: c14.rule_dynamic_entries(ctx, R=n))
+    _ensure(ctx, P + "/mem-file-siblings", lambda n: c14.rule_mem_file_siblings(ctx, R=n))
+    _ensure(ctx, P + "/strtab-window", lambda n: c14.rule_strtab_window(ctx, R=n))
+    _ensure(ctx, P + "/header-context", lambda n: c14.rule_header_context(ctx, R=n))
